@@ -21,7 +21,7 @@
 Fails loudly (TranslateError) when the source no longer has a shape it understands.  Not translated: the gather
 loop of append(ElectricField) (tied by correspondence and by C10_csr_spectrum_rows_are_bunches), appendRFKicks
 (C19), attribute writes (h5units2coq.py)."""
-import sys, os
+import sys, os, re
 sys.path.insert(0, os.path.dirname(os.path.abspath(__file__)))
 from cxx_ast import *
 from symloops import walk, strip1, refname, qtype, WRAPPERS
@@ -101,8 +101,21 @@ def append_data(docs):
     if pat is None:
         raise TranslateError("template pattern of _appendData with a body not found")
     params = [c for c in pat["inner"] if c.get("kind") == "ParmVarDecl"]
-    if [p.get("name") for p in params] != ["ds", "data", "size"]:
-        raise TranslateError("_appendData no longer takes (ds, data, size)")
+    if len(params) != 3 or "DatasetInfo<rank>" not in qtype(params[0]) or "*" not in qtype(params[1]) or \
+            not re.search(r"size_t|unsigned long", qtype(params[2])):
+        raise TranslateError("_appendData no longer takes (DatasetInfo<rank>& ds, const datatype* data, size_t size)")
+    # the parameters are identified by position; whatever they are called in the source, the rest of this function
+    # (and the generated definitions) call them ds, data, size
+    canon = {p_.get("id"): nm for p_, nm in zip(params, ("ds", "data", "size"))}
+
+    def rename(n):
+        if isinstance(n, dict):
+            rd = n.get("referencedDecl")
+            if isinstance(rd, dict) and rd.get("id") in canon:
+                rd["name"] = canon[rd["id"]]
+            for c in n.get("inner", []) or []:
+                rename(c)
+    rename(pat)
     dflt = kids(params[2])
     if not dflt or unwrap(dflt[0]).get("kind") != "IntegerLiteral" or int(unwrap(dflt[0])["value"]) != 1:
         raise TranslateError("default of _appendData's size is no longer 1")
@@ -129,6 +142,11 @@ def append_data(docs):
         if k == "BinaryOperator" and n.get("opcode") in ("+", "-", "*"):
             a, b = kids(n)
             return ({"+": "iadd", "-": "isub", "*": "imul"}[n["opcode"]], scalar(a), scalar(b))
+        if k == "CXXOperatorCallExpr" and len(kids(n)) == 3 and unwrap(kids(n)[0]).get("kind") == "UnresolvedLookupExpr" and \
+                unwrap(kids(n)[0]).get("name") in ("operator+", "operator-", "operator*"):
+            # `a + b` on type-dependent operands (the template pattern): an unresolved operator call
+            _, a, b = kids(n)
+            return ({"operator+": "iadd", "operator-": "isub", "operator*": "imul"}[unwrap(kids(n)[0])["name"]], scalar(a), scalar(b))
         raise TranslateError("_appendData: scalar expression of kind %s" % k)
 
     def vecname(n):
@@ -157,10 +175,13 @@ def append_data(docs):
                     continue
                 nm = vd["name"]
                 ini = kids(vd)
+                t = qtype(vd)
+                if (not ini or (unwrap(ini[0]).get("kind") == "CXXConstructExpr" and not kids(unwrap(ini[0])))) and "array<" in t:
+                    vec[nm] = (None, "uninit")       # `std::array<hsize_t,rank> v;` - must be filled before it is used
+                    continue
                 if not ini:
                     raise TranslateError("_appendData: local %s without initialiser" % nm)
                 e = unwrap(ini[0])
-                t = qtype(vd)
                 if "array<" in t or t == "auto":
                     src = vecname(e)
                     if src is not None:
@@ -211,6 +232,12 @@ def append_data(docs):
             c = unwrap(kids(s)[0])
             nm = c.get("member") or c.get("name")
             args = kids(s)[1:]
+            if nm == "fill" and kids(c) and vecname(kids(c)[0]) and vecname(kids(c)[0]) != "ds.dims" and len(args) == 1:
+                a0 = unwrap(args[0])
+                if a0.get("kind") != "IntegerLiteral" or int(a0["value"]) != 0:
+                    raise TranslateError("_appendData: fill() with something else than 0")
+                vec[vecname(kids(c)[0])] = (("inum", 0), "zeros")
+                continue
             if nm == "extend":
                 v = data_of(args[0]) if args else None
                 if v is None:
@@ -242,6 +269,8 @@ def append_data(docs):
     for w in ("start", "count", "extent", "mem"):
         if w not in res:
             raise TranslateError("_appendData: %s vector not found" % w)
+        if res[w][1] == "uninit" or res[w][0] is None:
+            raise TranslateError("_appendData: the %s vector is used without having been initialised" % w)
     res["after"] = vec["ds.dims"]
     order_ok = trace == ["extend", "getspace", "select", "write"]
 
@@ -573,6 +602,21 @@ def appends(docs, member_ds, acc):
 
 
 # ------------------------------------------------------------------------------------------- readPhaseSpace
+def rank_case(ifstmt, rank_id):
+    """K when the condition of the if statement is `rank == K` (either order), else None"""
+    iks = [c for c in ifstmt.get("inner", []) if c]
+    if not iks or ifstmt.get("hasInit") or ifstmt.get("hasVar"):
+        return None
+    c = unwrap(iks[0])
+    if c.get("kind") != "BinaryOperator" or c.get("opcode") != "==":
+        return None
+    a, b = [unwrap(x) for x in kids(c)]
+    for x, y in ((a, b), (b, a)):
+        if (x.get("referencedDecl") or {}).get("id") == rank_id and y.get("kind") == "IntegerLiteral":
+            return int(y["value"])
+    return None
+
+
 def read_ps(docs, psdocs):
     d = body = None
     for x in docs:
@@ -717,7 +761,8 @@ def read_ps(docs, psdocs):
                     elif any(x.get("name") == "getSpace" for x in walk(ini[0])):
                         sel["filespace"] = vd["id"]
                     continue
-                if ini and ("int" in t or "meshindex_t" in t or "size_t" in t) and "vector" not in t and "unique_ptr" not in t:
+                if ini and ("int" in t or "meshindex_t" in t or "size_t" in t or "long" in t or "unsigned" in t) and "vector" not in t \
+                        and "unique_ptr" not in t and "*" not in t:
                     try:
                         env[vd["id"]] = ev(ini[0])
                     except TranslateError:
@@ -750,6 +795,24 @@ def read_ps(docs, psdocs):
                     raise TranslateError("readPhaseSpace: statement outside a case of the rank switch")
                 if not assign_stmt(st, envl, vecl):
                     raise TranslateError("readPhaseSpace: statement of kind %s in the rank switch" % st.get("kind"))
+            continue
+        if k == "IfStmt" and rank_case(s, rankid[0]) is not None:
+            # the same selection written as a chain `if (rank == K) {..} else if (rank == K') {..}` (no final else)
+            node = s
+            while node is not None:
+                if node.get("kind") != "IfStmt" or rank_case(node, rankid[0]) is None:
+                    raise TranslateError("readPhaseSpace: the chain of rank tests ends in a branch that is not a rank test")
+                cur = rank_case(node, rankid[0])
+                if cur in cases:
+                    raise TranslateError("readPhaseSpace: rank %d is tested twice" % cur)
+                iks = [c for c in node.get("inner", []) if c]
+                envl, vecl = dict(env), {kk: list(vv) for kk, vv in vecs.items()}
+                cases[cur] = (envl, vecl)
+                body = iks[1]
+                for st in (kids(body) if body.get("kind") == "CompoundStmt" else [body]):
+                    if not assign_stmt(st, envl, vecl):
+                        raise TranslateError("readPhaseSpace: statement of kind %s in a rank branch" % st.get("kind"))
+                node = iks[2] if len(iks) > 2 else None
             continue
         s2 = s
         while s2.get("kind") in WRAPPERS and len(kids(s2)) == 1:
